@@ -2,6 +2,7 @@ package rtsp
 
 import (
 	"bufio"
+	"net"
 
 	"github.com/cnotch/xlog"
 )
@@ -35,3 +36,36 @@ func (v *VerifRecorder) onPack(p *RTPPack) error {
 func VerifReceive(r *bufio.Reader, channels []int, rec *VerifRecorder) error {
 	return receive(xlog.L(), r, channels, rec)
 }
+
+// VerifNewSession builds a session on conn exactly as Server.onAcceptConn does.
+func VerifNewSession(conn net.Conn) *Session {
+	svr := &Server{logger: xlog.L()}
+	return newSession(svr, conn)
+}
+
+// VerifProcess runs the session's request loop (what `go s.process()` runs).
+func (s *Session) VerifProcess() { s.process() }
+
+// VerifStatus exposes the protocol state: 0 init, 1 ready, 2 playing, 3 recording.
+func (s *Session) VerifStatus() int { return s.status }
+
+// VerifMode exposes the session mode.
+func (s *Session) VerifMode() int { return int(s.mode) }
+
+// VerifPath exposes the path the session is bound to.
+func (s *Session) VerifPath() string { return s.path }
+
+// VerifTransportType exposes the negotiated transport type.
+func (s *Session) VerifTransportType() int { return int(s.transport.Type) }
+
+// VerifHasConsumer reports whether a real consumer role is installed.
+func (s *Session) VerifHasConsumer() bool { _, empty := s.consumer.(emptyConsumer); return !empty }
+
+// VerifHasStream reports whether a publishing role is installed.
+func (s *Session) VerifHasStream() bool { _, empty := s.stream.(emptyStream); return !empty }
+
+// VerifNonce exposes the current digest nonce; VerifSessionID the session identifier.
+func (s *Session) VerifNonce() string     { return s.nonce }
+func (s *Session) VerifSessionID() string { return s.lsession }
+
+// VerifNewPullClient etc. are added with the C20 harness.
